@@ -143,7 +143,7 @@ def step (dig : Key → Digest) (s : State) : Op → State
         if dig k ∈ s.cache then { s with persist := ins s.persist (dig k), wb := setPc s.wb k .add }
         else { s with wb := dropThread s.wb k }                                   -- "set persist metadata" 500
       | .add =>
-        match Retry.stepO s.r (.addBegin k t.delay) with
+        match Retry.stepO s.r (.addBegin k t.delay []) with
         | (r', .addedPending) => { s with r := r', wb := setPc s.wb k .enq }
         | (r', .addedFailed) => { s with r := r', wb := setPc s.wb k .generate }
         | (r', .dup) => { s with r := r', wb := setPc s.wb k .generate }
